@@ -1062,6 +1062,48 @@ func c15deepQueries(d int) []string {
 	}
 }
 
+// where lists of nodes of one type come from (tag paths below the individuals / families)
+var c15kindSources = func() []struct{ kind, query string } {
+	out := []struct{ kind, query string }{{"IndividualNode", ".Individuals"}, {"FamilyNode", ".Families"}, {"NameNode", ".Individuals | .Name"},
+		{"NameNode", `.Individuals | NodesWithTagPath("NAME")`}, {"SexNode", ".Individuals | .Sex"}, {"HusbandNode", ".Families | .Husband"}, {"WifeNode", ".Families | .Wife"},
+		{"ChildNode", `.Families | NodesWithTagPath("CHIL")`}, {"NoteNode", `.Individuals | NodesWithTagPath("NOTE")`}, {"SourceNode", `.Nodes | Only(.Tag | .Tag = "SOUR")`},
+		{"DateNode", ".Individuals | .Birth"}, {"DateNode", ".Individuals | .Death"}}
+	for ev, kind := range map[string]string{"BIRT": "BirthNode", "DEAT": "DeathNode", "BAPM": "BaptismNode", "BURI": "BurialNode", "RESI": "ResidenceNode", "EVEN": "EventNode"} {
+		p := `.Individuals | NodesWithTagPath("` + ev + `"`
+		out = append(out, struct{ kind, query string }{kind, p + ")"}, struct{ kind, query string }{"PlaceNode", p + `, "PLAC")`},
+			struct{ kind, query string }{"DateNode", p + `, "DATE")`}, struct{ kind, query string }{"TypeNode", p + `, "TYPE")`},
+			struct{ kind, query string }{"MapNode", p + `, "PLAC", "MAP")`}, struct{ kind, query string }{"FormatNode", p + `, "PLAC", "FORM")`},
+			struct{ kind, query string }{"LatitudeNode", p + `, "PLAC", "MAP", "LATI")`}, struct{ kind, query string }{"LongitudeNode", p + `, "PLAC", "MAP", "LONG")`})
+	}
+	sort.Slice(out, func(i, j int) bool { return out[i].query < out[j].query })
+	return out
+}()
+
+// c15nilCellDocs: places with and without MAP / FORM, maps with and without LATI / LONG, events
+// with and without TYPE / DATE / PLAC, people without birth, death, sex or name, families without
+// husband or wife — so that every pointer-valued accessor is nil for some rows and not for others.
+func c15nilCellDocs() [][]*TNode {
+	full := T("PLAC", "Sydney, , NSW, Australia", "", T("FORM", "City, County, State, Country", ""), T("MAP", "", "", T("LATI", "S33.8", ""), T("LONG", "E151.2", "")), T("NOTE", "harbour", ""))
+	noMap := T("PLAC", "Paris, France", "")
+	emptyMap := T("PLAC", "Oslo", "", T("MAP", "", ""))
+	halfMap := T("PLAC", "Rome", "", T("MAP", "", "", T("LATI", "N41.9", "")), T("FORM", "", ""))
+	indi1 := T("INDI", "", "I1", T("NAME", "Ann /Lee/", "", T("GIVN", "Ann", "")), T("SEX", "F", ""),
+		T("BIRT", "", "", T("TYPE", "hospital", ""), T("DATE", "3 Sep 1943", ""), full.Clone()),
+		T("DEAT", "", "", T("DATE", "1 Jan 2000", ""), noMap.Clone()),
+		T("RESI", "", "", emptyMap.Clone()), T("EVEN", "", "", T("TYPE", "moved", ""), halfMap.Clone()), T("EVEN", "", ""),
+		T("BAPM", "", "", noMap.Clone()), T("BURI", "", "", T("DATE", "5 Jan 2000", ""), full.Clone()), T("NOTE", "a note", ""))
+	indi2 := T("INDI", "", "I2", T("BIRT", "", "", noMap.Clone()), T("RESI", "", "", full.Clone()), T("EVEN", "", "", emptyMap.Clone()))
+	indi3 := T("INDI", "", "I3")
+	indi4 := T("INDI", "", "I4", T("NAME", "Bob /Ray/", ""), T("BIRT", "", "", T("DATE", "garbage", "")), T("DEAT", "", ""), T("BURI", "", "", halfMap.Clone()))
+	fams := []*TNode{T("FAM", "", "F1", T("HUSB", "@I4@", ""), T("WIFE", "@I1@", ""), T("CHIL", "@I3@", "")), T("FAM", "", "F2", T("WIFE", "@I1@", "")),
+		T("FAM", "", "F3", T("HUSB", "@I9@", ""), T("CHIL", "@I2@", ""), T("CHIL", "@I9@", "")), T("FAM", "", "F4")}
+	src := T("SOUR", "", "S1", T("TITL", "A source", ""))
+	doc1 := append([]*TNode{T("HEAD", "", ""), indi1, indi2, indi3, indi4}, append(fams, src, T("TRLR", "", ""))...)
+	doc2 := []*TNode{indi2.Clone(), indi1.Clone(), T("FAM", "", "F1", T("HUSB", "@I2@", ""))} // the first row is the one with the nil cells
+	doc3 := []*TNode{indi3.Clone(), indi4.Clone(), indi1.Clone()}
+	return [][]*TNode{doc1, doc2, doc3}
+}
+
 var c15relationQueries = []string{".Individuals | .Spouses", ".Individuals | .Families", ".Individuals | .Parents", ".Individuals | .Children", ".Individuals | .SpouseChildren",
 	".Families | .Husband", ".Families | .Wife", ".Families | .Children", ".Families | .Husband | .Individual", ".Families | .Wife | .Individual",
 	".Families | {c: .Children | .Individual}", ".Individuals | First(1) | Only(1 = 1) | .Spouses", ".Individuals | Last(1) | .Spouses", ".Individuals | {s: .Spouses}",
@@ -1363,6 +1405,54 @@ func init() {
 					for _, d := range []int{3, 4, 8 % nSmall} {
 						jobs = append(jobs, c15Job{q1 + "\x01" + q2, []int{d}, "f"})
 						c.Count("source=formatter-reuse")
+					}
+				}
+			}
+		}
+		// rows whose cells are typed nil pointers: for every node type that a tag path reaches and every
+		// niladic accessor reflection finds on it that returns a pointer or an interface, objects with
+		// that accessor as a cell (one object with all of them, one per accessor, and the bare mapped
+		// accessor), on documents where it is nil for some rows and not for others — every result goes
+		// to all five formatters
+		{
+			nilDocs := []int{}
+			for _, f := range c15nilCellDocs() {
+				if d, ok := c15mkDoc(f); ok {
+					pool = append(pool, d)
+					nilDocs = append(nilDocs, len(pool)-1)
+				}
+			}
+			nilDocs = append(nilDocs, 3, 4, 8%nSmall)
+			types := c15nodeTypes()
+			for _, src := range c15kindSources {
+				t, ok := types[src.kind]
+				if !ok {
+					continue
+				}
+				var ptrAcc []string
+				for i := 0; i < t.NumMethod(); i++ {
+					m := t.Method(i)
+					if m.Type.NumIn() != 1 || m.Type.NumOut() < 1 {
+						continue
+					}
+					if k := m.Type.Out(0).Kind(); k == reflect.Ptr || k == reflect.Interface {
+						ptrAcc = append(ptrAcc, m.Name)
+					}
+				}
+				var all []string
+				for i, a := range ptrAcc {
+					all = append(all, fmt.Sprintf("c%d: .%s", i, a))
+				}
+				queries := []string{src.query + " | {s: .String, " + strings.Join(all, ", ") + "}"}
+				for _, a := range ptrAcc {
+					queries = append(queries, src.query+" | {s: .String, x: ."+a+"}", src.query+" | {x: ."+a+" | .String}", src.query+" | Only(1 = 1) | {x: ."+a+"}")
+					if !strings.Contains(src.query, "NodesWithTagPath") && !strings.HasPrefix(src.query, ".Nodes") {
+						queries = append(queries, src.query+" | ."+a, src.query+" | ."+a+" | {s: .String}")
+					}
+				}
+				for _, query := range queries {
+					for _, d := range nilDocs {
+						add("nil-cells", query, []int{d})
 					}
 				}
 			}
